@@ -52,42 +52,195 @@ def r_basisguard(idx, rep, rule="R-BASISGUARD"):
               "on the else-branch |n[%d]| > |n[%d]|, but the length is built from components %s" % (small, big, sorted(lc_else or [])), "uses n[%d]" % small)
 
 
+class _SetInterp:
+    """interpretation of adjacency-building code over LABELS: the three vertices of one generic triangle are the labels 'A', 'B', 'C'; dicts, sets, tuples,
+    zip / enumerate / np.roll / range and the set / dict methods used to record neighbours are evaluated on them.  NotImplementedError = not modelled."""
+
+    def __init__(self):
+        self.env = {}
+
+    def ev(self, e):
+        if isinstance(e, ast.Constant):
+            return e.value
+        if isinstance(e, ast.Name):
+            if e.id in self.env:
+                return self.env[e.id]
+            raise NotImplementedError("name %s" % e.id)
+        if isinstance(e, (ast.Tuple, ast.List)):
+            return tuple(self.ev(x) for x in e.elts)
+        if isinstance(e, ast.Set):
+            return {self.ev(x) for x in e.elts}
+        if isinstance(e, ast.Dict):
+            return {self.ev(k): self.ev(v) for k, v in zip(e.keys, e.values)}
+        if isinstance(e, ast.UnaryOp) and isinstance(e.op, ast.USub):
+            return -self.ev(e.operand)
+        if isinstance(e, ast.UnaryOp) and isinstance(e.op, ast.Not):
+            return not self.ev(e.operand)
+        if isinstance(e, ast.BinOp):
+            a, b = self.ev(e.left), self.ev(e.right)
+            if isinstance(e.op, ast.BitOr) and isinstance(a, (set, frozenset)) and isinstance(b, (set, frozenset)):
+                return set(a) | set(b)
+            if isinstance(e.op, ast.Sub) and isinstance(a, (set, frozenset)) and isinstance(b, (set, frozenset)):
+                return set(a) - set(b)
+            if isinstance(a, int) and isinstance(b, int):
+                return {ast.Add: a + b, ast.Sub: a - b, ast.Mod: a % b if b else 0, ast.Mult: a * b}.get(type(e.op), None)
+            if isinstance(e.op, ast.Add) and isinstance(a, tuple) and isinstance(b, tuple):
+                return a + b
+            raise NotImplementedError("operator")
+        if isinstance(e, ast.Compare) and len(e.ops) == 1:
+            a, b = self.ev(e.left), self.ev(e.comparators[0])
+            op = e.ops[0]
+            if isinstance(op, ast.In):
+                return a in b
+            if isinstance(op, ast.NotIn):
+                return a not in b
+            if isinstance(op, ast.Eq):
+                return a == b
+            if isinstance(op, ast.NotEq):
+                return a != b
+            raise NotImplementedError("comparison")
+        if isinstance(e, ast.Subscript):
+            base = self.ev(e.value)
+            if isinstance(e.slice, ast.Slice):
+                lo = self.ev(e.slice.lower) if e.slice.lower is not None else None
+                hi = self.ev(e.slice.upper) if e.slice.upper is not None else None
+                return base[lo:hi]
+            return base[self.ev(e.slice)]
+        if isinstance(e, ast.Call):
+            name = call_name(e) or ""
+            args = [self.ev(a) for a in e.args]
+            if isinstance(e.func, ast.Attribute) and not name.startswith(("np.", "numpy.")):
+                recv = self.ev(e.func.value)
+                meth = e.func.attr
+                if isinstance(recv, dict) and meth == "setdefault" and len(args) == 2:
+                    return recv.setdefault(args[0], args[1])
+                if isinstance(recv, dict) and meth == "get":
+                    return recv.get(*args)
+                if isinstance(recv, set) and meth == "add" and len(args) == 1:
+                    recv.add(args[0])
+                    return None
+                if isinstance(recv, set) and meth == "update":
+                    for a_ in args:
+                        recv.update(a_)
+                    return None
+                if isinstance(recv, set) and meth in ("union",):
+                    return set(recv).union(*args)
+                raise NotImplementedError("method %s" % meth)
+            if name == "set":
+                return set(args[0]) if args else set()
+            if name in ("tuple", "list"):
+                return tuple(args[0]) if args else ()
+            if name == "zip":
+                return tuple(zip(*args))
+            if name == "enumerate":
+                return tuple(enumerate(args[0]))
+            if name == "range":
+                return tuple(range(*args))
+            if name == "len":
+                return len(args[0])
+            if name in ("np.roll", "numpy.roll") and len(args) == 2 and isinstance(args[0], tuple) and isinstance(args[1], int):
+                k = args[1] % len(args[0]) if args[0] else 0
+                return args[0][-k:] + args[0][:-k] if k else args[0]
+            if name in ("int",) and len(args) == 1:
+                return args[0]
+            if name == "dict" and not args:
+                return {}
+            if name in ("defaultdict", "collections.defaultdict"):
+                import collections
+                return collections.defaultdict(set)
+            raise NotImplementedError("call %s" % name)
+        raise NotImplementedError(type(e).__name__)
+
+    def assign(self, t, v):
+        if isinstance(t, ast.Name):
+            self.env[t.id] = v
+        elif isinstance(t, (ast.Tuple, ast.List)):
+            v = tuple(v)
+            if len(v) != len(t.elts):
+                raise NotImplementedError("unpacking")
+            for tt, vv in zip(t.elts, v):
+                self.assign(tt, vv)
+        elif isinstance(t, ast.Subscript):
+            self.ev(t.value)[self.ev(t.slice)] = v
+        else:
+            raise NotImplementedError("target")
+
+    def run(self, stmts):
+        for st in stmts:
+            if isinstance(st, ast.Assign):
+                v = self.ev(st.value)
+                for t in st.targets:
+                    self.assign(t, v)
+            elif isinstance(st, ast.AugAssign):
+                cur = self.ev(st.target)
+                v = self.ev(st.value)
+                if isinstance(st.op, ast.BitOr) and isinstance(cur, set):
+                    cur |= set(v)
+                else:
+                    raise NotImplementedError("augmented assignment")
+            elif isinstance(st, ast.Expr):
+                if not isinstance(st.value, ast.Constant):
+                    self.ev(st.value)
+            elif isinstance(st, ast.If):
+                self.run(st.body if self.ev(st.test) else st.orelse)
+            elif isinstance(st, ast.For):
+                for x in self.ev(st.iter):
+                    self.assign(st.target, x)
+                    self.run(st.body)
+            elif isinstance(st, ast.Pass):
+                continue
+            else:
+                raise NotImplementedError("statement %s" % type(st).__name__)
+
+
 def r_adjacency(idx, rep, rule="R-ADJACENCY"):
-    """MeshHillClimbingSupportFunction.__init__ builds the vertex adjacency from the triangles: every vertex of a triangle gets the
-    OTHER TWO as neighbours (hill climbing reaches the extreme vertex of a convex mesh only over a complete adjacency)."""
-    rep.rule(rule, "mesh adjacency: for each triangle (i, j, k) every vertex receives exactly the other two as neighbours", floor=3)
+    """MeshHillClimbingSupportFunction.__init__ builds the vertex adjacency from the triangles: every vertex of a triangle gets the OTHER TWO as
+    neighbours (hill climbing reaches the extreme vertex of a convex mesh only over a complete adjacency; a directed edge list loses a link wherever two
+    adjacent triangles are wound oppositely).  Decided by interpreting the body of the loop over the triangles for ONE generic triangle with the vertex
+    labels A, B, C (rules above): however the links are recorded, the adjacency of that triangle must come out as A:{B,C}, B:{A,C}, C:{A,B}."""
+    rep.rule(rule, "mesh adjacency: for each triangle (i, j, k) every vertex receives exactly the other two as neighbours (interpretation of the loop body over "
+                   "vertex labels)", floor=3)
     ci = idx.module("distance3d.mesh").classes.get("MeshHillClimbingSupportFunction")
     init = ci.methods.get("__init__") if ci else None
     if init is None:
         raise AnalysisError("MeshHillClimbingSupportFunction.__init__ vanished")
-    loops = [st for st in ast.walk(init.node) if isinstance(st, ast.For) and isinstance(st.target, ast.Tuple) and len(st.target.elts) == 3
-             and all(isinstance(e, ast.Name) for e in st.target.elts)]
+    params = init.params()
+    loops = [st for st in init.node.body if isinstance(st, ast.For) and isinstance(st.iter, ast.Name) and st.iter.id in params]
     if not loops:
         raise AnalysisError("MeshHillClimbingSupportFunction.__init__: loop over the triangles not found")
     lp = loops[0]
-    tri = [e.id for e in lp.target.elts]
-    got = {}
-    from ..core.inline import normalise_statements
-    body_nf = ast.Module(body=normalise_statements(idx, init.module, lp.body), type_ignores=[])      # literal inner loops over (corner, neighbours) pairs unrolled
-    for c in ast.walk(body_nf):
-        if isinstance(c, ast.Call) and isinstance(c.func, ast.Attribute) and c.func.attr in ("update", "add") and c.args:
-            recv = c.func.value
-            # connections[x]  or  connections.setdefault(x, set())
-            x = None
-            if isinstance(recv, ast.Subscript) and isinstance(recv.slice, ast.Name):
-                x = recv.slice.id
-            elif isinstance(recv, ast.Call) and isinstance(recv.func, ast.Attribute) and recv.func.attr == "setdefault" and recv.args and isinstance(recv.args[0], ast.Name):
-                x = recv.args[0].id
-            if x in tri:
-                arg = c.args[0]
-                names = {e.id for e in (arg.elts if isinstance(arg, (ast.Tuple, ast.List, ast.Set)) else [arg]) if isinstance(e, ast.Name)}
-                got.setdefault(x, set()).update(names)
-    for x in tri:
-        want = set(tri) - {x}
-        rep.check(got.get(x) == want, rule, "%s|neighbours of vertex #%d of a triangle" % (init.key, tri.index(x)), "%s:%d" % (init.module.relpath, lp.lineno),
-                  "vertex `%s` of a triangle (%s) receives the neighbours %s instead of %s: a directed link is lost, hill climbing can stall on a mesh whose "
-                  "neighbouring triangle does not restore it (mixed winding), and the support point then depends on the start vertex"
-                  % (x, ", ".join(tri), sorted(got.get(x, [])), sorted(want)), "other two")
+    it = _SetInterp()
+    # containers created before the loop
+    for st in init.node.body[:init.node.body.index(lp)]:
+        if isinstance(st, ast.Assign) and len(st.targets) == 1 and isinstance(st.targets[0], ast.Name):
+            try:
+                it.env[st.targets[0].id] = it.ev(st.value)
+            except (NotImplementedError, Exception):
+                pass
+    where = "%s:%d" % (init.module.relpath, lp.lineno)
+    try:
+        it.assign(lp.target, ("A", "B", "C"))
+        it.run(lp.body)
+    except NotImplementedError as e:
+        for k in range(3):
+            rep.unknown(rule, "%s|neighbours of vertex #%d of a triangle" % (init.key, k), where, "the loop body is not interpretable over labels (%s)" % e)
+        return
+    except Exception as e:      # an interpretation error on the generic triangle
+        for k in range(3):
+            rep.unknown(rule, "%s|neighbours of vertex #%d of a triangle" % (init.key, k), where, "interpretation failed: %s" % type(e).__name__)
+        return
+    adj = None
+    for v in it.env.values():
+        if isinstance(v, dict) and set(v) & {"A", "B", "C"}:
+            adj = v
+    labels = ("A", "B", "C")
+    for k, x in enumerate(labels):
+        want = set(labels) - {x}
+        got = set(adj.get(x, ())) if adj is not None else set()
+        rep.check(got == want, rule, "%s|neighbours of vertex #%d of a triangle" % (init.key, k), where,
+                  "vertex #%d of a triangle receives the neighbours %s instead of the other two %s: a directed link is lost, hill climbing can stall on a mesh "
+                  "whose neighbouring triangle does not restore it (mixed winding), and the support point then depends on the start vertex"
+                  % (k, sorted(got), sorted(want)), "other two")
 
 
 def r_dupcond(idx, rep, modules, rule="R-DUPCOND", floor=20):
@@ -180,10 +333,19 @@ def r_stiffness(idx, rep, rule="R-STIFFNESS"):
             return terms(e.left) + terms(e.right)
         return [e]
     target = None
+    # the plane expression: the first assignment whose value — temporaries read through — is a two-term sum / difference that mentions BOTH barycentric
+    # transforms (the function's first two parameters, whatever they are called)
+    import copy as _copy
+    from ..core.astutil import inline_temps_in
+    _ps = f.params()
     for st in f.node.body:
-        if isinstance(st, ast.Assign) and isinstance(st.value, ast.BinOp) and isinstance(st.value.op, (ast.Sub, ast.Add)) and len(terms(st.value)) == 2 \
-                and any(isinstance(n, ast.Name) and n.id.startswith("X") for n in ast.walk(st.value)):
-            target = st
+        if not isinstance(st, ast.Assign):
+            continue
+        val_ = inline_temps_in(f.node, st.value)
+        names_ = {n.id for n in ast.walk(val_) if isinstance(n, ast.Name)}
+        if isinstance(val_, ast.BinOp) and isinstance(val_.op, (ast.Sub, ast.Add)) and len(terms(val_)) == 2 and len(_ps) >= 2 and {_ps[0], _ps[1]} <= names_:
+            target = _copy.copy(st)
+            target.value = val_
             break
     if target is None:
         raise AnalysisError("contact_plane: plane expression (difference of the two weighted fields) not found")
@@ -311,10 +473,17 @@ def r_stiffness_chain(idx, rep, rule="R-STIFFNESS"):
             return terms(e.left) + terms(e.right)
         return [e]
     target = None
+    import copy as _copy
+    from ..core.astutil import inline_temps_in
+    _ps = cp.params()
     for st in cp.node.body:
-        if isinstance(st, ast.Assign) and isinstance(st.value, ast.BinOp) and isinstance(st.value.op, (ast.Sub, ast.Add)) and len(terms(st.value)) == 2 \
-                and any(isinstance(n, ast.Name) and n.id.startswith("X") for n in ast.walk(st.value)):
-            target = st
+        if not isinstance(st, ast.Assign):
+            continue
+        val_ = inline_temps_in(cp.node, st.value)
+        names_ = {n.id for n in ast.walk(val_) if isinstance(n, ast.Name)}
+        if isinstance(val_, ast.BinOp) and isinstance(val_.op, (ast.Sub, ast.Add)) and len(terms(val_)) == 2 and len(_ps) >= 2 and {_ps[0], _ps[1]} <= names_:
+            target = _copy.copy(st)
+            target.value = val_
             break
     if target is None:
         raise AnalysisError("contact_plane: plane expression (difference of the two weighted fields) not found")
